@@ -187,6 +187,11 @@ func (p *Prop) Run(t *simhook.Tape, opt simkit.RunOpt) *simkit.RunResult {
 			pln.policy = simhook.Policy{Kind: simhook.PSeq}
 		}
 	}
+	if c.pl.huge != nil && pln.policy.Gap > 0 && pln.policy.Gap < 2000 {
+		// the invariant re-reads the whole pool: with a 16k-element slice in it a
+		// decision at every yield would cost seconds per call
+		pln.policy.Gap = 2000
+	}
 	// history plan
 	pln.histOrder = g.Perm(len(pln.calls))
 	for range pln.histOrder {
@@ -404,6 +409,14 @@ func (c *runCtx) history(t *simhook.Tape) *simhook.Abort {
 	return ab
 }
 
+// yieldEvery is how often (in yields) O1 is evaluated inside a call.
+func (c *runCtx) yieldEvery() uint64 {
+	if c.pl.huge != nil {
+		return 4096
+	}
+	return 64
+}
+
 type concResult struct {
 	res     simhook.Result
 	results [][]uint64
@@ -437,7 +450,7 @@ func (c *runCtx) concurrent(t *simhook.Tape, ntasks int) (*concResult, *simhook.
 		Tape: t, Policy: c.pln.policy, RunBudget: runBudget, OpBudget: opBudget, CanonicalMaps: false, TraceCap: 400,
 		OnSwitch:   func(from, to int) { c.invariant(from, "at a task switch") },
 		OnYield:    func(task int) { c.invariant(task, "at a yield point inside the call") },
-		YieldEvery: 64,
+		YieldEvery: c.yieldEvery(),
 	}, fns)
 	if c.opt.Counting {
 		c.p.St.Faults.Add("adversarial_map_order", int64(cr.res.MapPerms))
